@@ -36,6 +36,18 @@ func init() {
 }
 
 func runC11(c *an.Ctx) {
+	// ---- C11-R12: builder wiring of the components this property rests on
+	c.Floor("C11-R12", 10)
+	builderWiring(c, "C11-R12", map[string][]string{
+		"initDNS|dnssvc.HandlersConfig":                           {"HashMatcher", "FilterStorage"},
+		"initFilterStorage|filter/filterstorage.ConfigHashPrefix": nil,
+		"initSafeBrowsing|filter/hashprefix.FilterConfig":         {"ReplacementHost", "Cloner"},
+		"initAdultBlocking|filter/hashprefix.FilterConfig":        {"ReplacementHost", "Cloner"},
+		"initNewRegDomains|filter/hashprefix.FilterConfig":        {"ReplacementHost", "Cloner"},
+		"initSafeBrowsing|agdservice.RefreshWorkerConfig":         {"Refresher"},
+		"initAdultBlocking|agdservice.RefreshWorkerConfig":        {"Refresher"},
+		"initNewRegDomains|agdservice.RefreshWorkerConfig":        {"Refresher"},
+	})
 	c11BuilderWiring(c)
 	// ---- R10: an oversized, truncated or non-200 list download never replaces the list (shared with C13-R1)
 	c.Floor("C11-R10", 3)
